@@ -8,6 +8,12 @@ pub mod c04;
 pub mod c06;
 pub mod c07;
 pub mod c16;
+pub mod c20;
+pub mod c19;
+pub mod c15;
+pub mod chainmon;
+pub mod c02;
+pub mod c09;
 pub mod c12;
 pub mod c11;
 pub mod c10;
@@ -30,6 +36,12 @@ pub fn run(ctx: &mut Ctx) -> bool {
         "C06" => c06::run(ctx),
         "C07" => c07::run(ctx),
         "C16" => c16::run(ctx),
+        "C20" => c20::run(ctx),
+        "C19" => c19::run(ctx),
+        "C15" => c15::run(ctx),
+        "C13" | "C14" | "C17" => chainmon::run(ctx),
+        "C02" => c02::run(ctx),
+        "C09" => c09::run(ctx),
         "C12" => c12::run(ctx),
         "C11" => c11::run(ctx),
         "C10" => c10::run(ctx),
@@ -49,6 +61,12 @@ pub fn replay(ctx: &mut Ctx, case: &str) -> bool {
         "C06" => c06::replay(ctx, case),
         "C07" => c07::replay(ctx, case),
         "C16" => c16::replay(ctx, case),
+        "C20" => c20::replay(ctx, case),
+        "C19" => c19::replay(ctx, case),
+        "C15" => c15::replay(ctx, case),
+        "C13" | "C14" | "C17" => chainmon::replay(ctx, case),
+        "C02" => c02::replay(ctx, case),
+        "C09" => c09::replay(ctx, case),
         "C12" => c12::replay(ctx, case),
         "C11" => c11::replay(ctx, case),
         "C10" => c10::replay(ctx, case),
